@@ -77,3 +77,27 @@ Theorem C17_reject_single_cell_without_cell : forall (xa : dataarray) (v : list 
   a_cell xa = None -> In v (xcoords xa) -> (length v < 2)%nat -> is_ok (from_xarray xa) = false.
 Proof. exact reject_single_cell_no_cell. Qed.
 Print Assumptions C17_reject_single_cell_without_cell.
+
+(* attribute-free reconstruction, one axis, any number k >= 2 of evenly spaced coordinates
+   x0 + j*c: the spacing test passes, the cell is the mean spacing (== c), the corners lie half a
+   cell beyond the outermost centres, and Mesh(region, cell) counts k cells.  (The n-d assembly of
+   these per-axis facts goes through by_cell_axes / mk_region_axes exactly as in the round trip; it
+   is exercised by the correspondence cases 'even-coords', 'int-coords', 'dropped-coords', 'raw'.) *)
+Theorem C17_rebuild_axis : forall (x0 c : Q) (k : Z), 0 < c -> (2 <= k)%Z ->
+  let v := map (fun j => x0 + inject_Z j * c) (ziota 0 (Z.to_nat k)) in
+  evenly 1 v = true /\
+  exists c', mean_spacing v = Some c' /\ c' == c /\
+    let p1 := hd 0 v - c' / 2 in
+    let p2 := last v 0 + c' / 2 in
+    p1 == x0 - c / 2 /\ p2 == x0 + (inject_Z k - 1) * c + c / 2 /\
+    p1 < p2 /\ inject_Z k * c' == p2 - p1 /\ Qround_half_even ((p2 - p1) / c') = k.
+Proof. exact rebuild_axis. Qed.
+Print Assumptions C17_rebuild_axis.
+
+(* Mesh(region, cell) accepts, with n = ks, every cell list that divides the edges exactly
+   (any number of axes); used by both the round trip and the reconstruction *)
+Theorem C17_mesh_by_cell_exact : forall (r : region) (ks : list Z) (cs : list Q),
+  axes (pmin r) (pmax r) ks cs -> pmin r <> [] -> 0 <= tf r ->
+  mesh_by_cell r cs = OK (mkMesh r ks "" []).
+Proof. exact by_cell_axes. Qed.
+Print Assumptions C17_mesh_by_cell_exact.
